@@ -60,16 +60,32 @@ func (k *Key) UnmarshalXML(d *xml.Decoder, start xml.StartElement) error {
 		return errTrustElement
 	}
 
-	trust := struct {
-		// Use innerxml instead of chardata to make sure we consume the entire
-		// element and if anything that's not base64 encoded has been smuggled into
-		// it somehow we have an error on decoding.
-		Inner []byte `xml:",innerxml"`
-	}{}
-	err := d.DecodeElement(&trust, &start)
-	if err != nil {
-		return err
+	// Collect the text of the element token by token: a field tagged innerxml
+	// is only filled when the decoder reads raw bytes, and what arrives over a
+	// session is decoded from a token stream. Anything but text inside the
+	// element makes the base64 decoding below fail.
+	var inner []byte
+	for {
+		tok, err := d.Token()
+		if err != nil {
+			return err
+		}
+		if _, end := tok.(xml.EndElement); end {
+			break
+		}
+		switch t := tok.(type) {
+		case xml.CharData:
+			inner = append(inner, t...)
+		case xml.StartElement:
+			// Markup is not base64: keep its first byte so that decoding fails
+			// where the element begins, and drop the rest of it.
+			inner = append(inner, '<')
+			if err = d.Skip(); err != nil {
+				return err
+			}
+		}
 	}
+	trust := struct{ Inner []byte }{Inner: inner}
 	expectedLen := base64.StdEncoding.DecodedLen(len(trust.Inner))
 	if len(k.KeyID) < expectedLen {
 		k.KeyID = make([]byte, expectedLen)
